@@ -305,4 +305,61 @@ func c11(r *core.Report) {
 		// covered by the origin classification above ("call" to net/url.Parse is inadmissible).
 		_ = types.Typ
 	})
+
+	r.RunRule("C11.base", "a reference is read at the location it names relative to the referring document: in resolvePath, the reference is handed back untouched (its location then owes nothing to the referring document) only when it has a scheme or host of its own (the !is_file branch) or after looking at the host of the referring document (an absolute path inside a remote document names a location of that host, not a local file)", 2, func() {
+		info := p.Pkg("openapi3").TypesInfo
+		fd := p.DeclOf("openapi3", "resolvePath")
+		if len(fd.Type.Params.List) == 0 {
+			core.Fail("resolvePath has no parameters")
+		}
+		var comp, base types.Object
+		var names []*ast.Ident
+		for _, f := range fd.Type.Params.List {
+			names = append(names, f.Names...)
+		}
+		if len(names) != 2 {
+			core.Fail("resolvePath: expected (basePath, componentPath)")
+		}
+		base, comp = info.ObjectOf(names[0]), info.ObjectOf(names[1])
+		k := 0
+		ast.Inspect(fd.Body, func(nd ast.Node) bool {
+			ret, ok := nd.(*ast.ReturnStmt)
+			if !ok || len(ret.Results) != 1 {
+				return true
+			}
+			id, ok := ast.Unparen(ret.Results[0]).(*ast.Ident)
+			if !ok || info.ObjectOf(id) != comp {
+				return true
+			}
+			k++
+			key := fmt.Sprintf("base:resolvePath/return-as-is#%d", k)
+			why := ""
+			for _, a := range core.Atoms(core.GuardsAt(info, fd.Body, ret)) {
+				if c, ok := ast.Unparen(a.Expr).(*ast.CallExpr); ok && !a.Pos {
+					if f := core.CalleeOf(info, c); f != nil && f.Name() == "is_file" && len(c.Args) == 1 {
+						if aid, ok := ast.Unparen(c.Args[0]).(*ast.Ident); ok && info.ObjectOf(aid) == comp {
+							why = "the reference has a scheme or host of its own"
+						}
+					}
+				}
+				mentionsHost := false
+				ast.Inspect(a.Expr, func(m ast.Node) bool {
+					if sel, ok := m.(*ast.SelectorExpr); ok && sel.Sel.Name == "Host" {
+						if bid, ok := ast.Unparen(sel.X).(*ast.Ident); ok && info.ObjectOf(bid) == base {
+							mentionsHost = true
+						}
+					}
+					return true
+				})
+				if mentionsHost {
+					why = "the referring document's host was looked at"
+				}
+			}
+			r.Check(why != "", key, p.Pos(ret.Pos()), why, "resolvePath returns the reference as written without a scheme or host of its own and without regard to the referring document: an absolute path in a document loaded from http://host/... is read from the local file system instead of from that host")
+			return true
+		})
+		if k == 0 {
+			core.Fail("resolvePath never returns its reference parameter")
+		}
+	})
 }
